@@ -799,3 +799,10 @@ VARIANTS += [
     V('C20-M22', 'M', ('C20',), FU, 'ProcessPoolExecutor.__init__', r'mp_context = MP_SPAWN_CTX', "mp_context = multiprocessing.get_context('spawn')", ('C20-4',)),
     V('C20-M23', 'M', ('C20',), SL, None, r'from mpservice\.multiprocessing import Process\n', 'from multiprocessing import Process\n', ('C20-4',), flags=0),
 ]
+
+VARIANTS += [
+    V('C17-M24', 'M', ('C17',), QU, 'ResponsiveQueue._get_put', r'perf_counter\(\)', 'time.time()', ('C17-5',), count=0, note='wall clock in a timed wait'),
+    V('C06-M25', 'M', ('C06',), SV, 'Server._enqueue', r'perf_counter\(\)', 'time.time()', ('C06-9', 'C06-8'), count=0),
+    V('C19-M22', 'M', ('C19',), ST, 'EagerBatcher.__iter__', r'time\.perf_counter\(\)', 'time.time()', ('C19-3',), count=0, note='seeded C19-r3m2 shape'),
+    V('C01-M24', 'M', ('C01', 'C18', 'C03', 'C05', 'C08'), QS, 'SingleLane.get', r'(\n(\s+))z = self\._queue\.popleft\(\)\n\s+self\._not_full\.notify\(\)', r'\1was_full = self.full()\1z = self._queue.popleft()\1if was_full:\1    self._not_full.notify()', ('C01-4', 'C18-11', 'C03-8', 'C05-8', 'C08-5'), note='seeded C18-r3m2 shape: conditional notify'),
+]
